@@ -86,11 +86,9 @@ impl<'a> Run<'a> {
     pub fn spawn(&self) -> std::io::Result<Running> {
         let mut cmd = Command::new(self.bin);
         cmd.args(&self.args).stdin(Stdio::null()).stdout(Stdio::piped());
-        if self.capture_stderr {
-            cmd.stderr(Stdio::piped());
-        } else {
-            cmd.stderr(Stdio::null());
-        }
+        // always a pipe (drained by a thread below), never /dev/null: under RLIMIT_FSIZE a
+        // stderr that is a regular file (e.g. a damaged /dev/null) would make `eprintln!` panic
+        cmd.stderr(Stdio::piped());
         cmd.env("RUST_BACKTRACE", "0");
         if let Some(t) = &self.tmpdir {
             cmd.env("TMPDIR", t);
